@@ -93,8 +93,10 @@ func c17URL(c *core.Ctx, host string) string {
 		host = string(b)
 	}
 	sb.WriteString(host)
-	sb.WriteString(c17Ports[c.Rng.Intn(len(c17Ports))])
-	tail := false
+	port := c17Ports[c.Rng.Intn(len(c17Ports))]
+	sb.WriteString(port)
+	// (after an explicit port the fragment does not follow the host directly)
+	tail := port != ""
 	switch c.Rng.Intn(4) {
 	case 0:
 	case 1:
@@ -321,7 +323,7 @@ func init() {
 					for _, p := range c17Paths {
 						for _, q := range c17Queries {
 							for _, f := range []string{"", "#frag"} {
-								if p == "" && q == "" && f != "" {
+								if p == "" && q == "" && f != "" && port == "" {
 									continue // fragment directly after the host
 								}
 								u := "https://" + h + port + p + q + f
